@@ -37,6 +37,18 @@ fn dispatch<P: Property>(p: &P, opts: &Opts, replay_file: Option<PathBuf>) -> i3
     if let Ok(f) = std::env::var("PKGSIM_INTERNAL_EXEC") {
         return child_exec_main(p, std::path::Path::new(&f));
     }
+    if let Ok(r) = std::env::var("PKGSIM_PRINT_SCENARIO") {
+        // debugging aid: print the generated scenario of one run, with a trace
+        let run: u64 = r.parse().unwrap_or(0);
+        let mut rng = rng::Rng::new(run_seed(opts.seed, p.id(), run));
+        let sc = p.generate(&mut rng, run, opts.tier);
+        println!("{}", serde_json::to_string_pretty(&sc).unwrap_or_default());
+        let out = exec_one(p, &sc, true);
+        for l in out.ctx.trace.unwrap_or_default() {
+            println!("  {}", l);
+        }
+        return 0;
+    }
     if let Ok(spec) = std::env::var("PKGSIM_INTERNAL_RANGE") {
         let parts: Vec<&str> = spec.split(':').collect();
         if parts.len() == 4 {
